@@ -273,6 +273,7 @@ def run(ctx):
     ctx.floor("judged:unique_intersect", ctx.pick(100, 3000))
     ctx.floor("judged:jaccard", ctx.pick(50, 1000))
     ctx.floor("judged:sort", ctx.pick(10, 1000))
+    ctx.floor("lazy_selection_operands", ctx.pick(100, 1000))       # the un-decoded / lazy-view variants must actually have run
 
 
 def replay(ctx, w):
